@@ -433,6 +433,8 @@ package actor
 //@      (pid != nil && e.address == pid.Address ==> sentLocal(e, pid, msg, sender, k0)) &&
 //@      (pid != nil && e.address != pid.Address && isnil(e.remote) ==> log[k0] == Broadcast(e, EngineRemoteMissingEvent{Target: pid, Sender: sender, Message: msg})) &&
 //@      (pid != nil && e.address != pid.Address && !isnil(e.remote) ==> log[k0] == RemoteSend(e.remote, pid, msg, sender))
+//@ pred pidAddr(q) := q.Address
+//@ pred pidID(q) := q.ID
 //@ pred logPrefix(k0) := forall(k, 0 <= k && k < k0 ==> log[k] == entry(log)[k])
 //@ pred engInv(e) := e != nil && e.Registry != nil && e.Registry.engine != nil
 
@@ -552,3 +554,139 @@ package actor
 //@   ghost at call Invoke#1 before: assert[C01.run.batch-whole-to-own-processer] recv == in.proc && arg0 == popped && len(arg0) > 0
 //@   loop 1
 //@     invariant in.rb != nil && !isnil(in.scheduler) && !isnil(in.proc)
+
+// BroadcastEvent is used by every caller through its abstract contract (one
+// Broadcast entry in the effect log). Its body is checked here against what
+// that entry stands for: the event is sent to the event-stream actor, with no
+// sender, through the ordinary send path (and dropped when there is no stream).
+//@ func (*Engine).BroadcastEvent!impl(msg)
+//@   props C09 C12
+//@   requires engInv(e)
+//@   nopanic[C09.broadcast.nopanic]
+//@   modifies log, loglen
+//@   ensures[C09.broadcast.routed-to-stream] (e.eventStream != nil ==> sendEffect(e, e.eventStream, msg, nil, entry(loglen), loglen)) && (e.eventStream == nil ==> loglen == entry(loglen)) && logPrefix(entry(loglen))
+
+// ---------------------------------------------------------------------------
+// Context accessors and helpers
+
+//@ func (*Context).Message()
+//@   props C12 C11
+//@   requires c != nil
+//@   pure
+//@   ensures result == c.message
+
+//@ func (*Context).PID()
+//@   props C11
+//@   requires c != nil
+//@   pure
+//@   ensures result == c.pid
+
+//@ func (*Context).Forward(pid)
+//@   props C12 C09
+//@   requires c != nil && engInv(c.engine)
+//@   nopanic[C09.forward.nopanic]
+//@   modifies log, loglen
+//@   ensures[C12.forward.effect] sendEffect(c.engine, pid, c.message, c.pid, entry(loglen), loglen) && logPrefix(entry(loglen))
+
+//@ func (*Context).Respond(msg)
+//@   props C11
+//@   requires c != nil && engInv(c.engine)
+//@   nopanic[C11.respond.nopanic]
+//@   modifies log, loglen
+//@   ensures[C11.respond.to-sender] (c.sender == nil ==> loglen == entry(loglen)) && (c.sender != nil ==> sendEffect(c.engine, c.sender, msg, nil, entry(loglen), loglen)) && logPrefix(entry(loglen))
+
+//@ func (*Engine).Subscribe(pid)
+//@   props C12
+//@   requires engInv(e)
+//@   modifies log, loglen
+//@   ensures[C12.subscribe.route] sendEffect(e, e.eventStream, eventSub{pid: pid}, nil, entry(loglen), loglen)
+
+//@ func (*Engine).Unsubscribe(pid)
+//@   props C12
+//@   requires engInv(e)
+//@   modifies log, loglen
+//@   ensures[C12.unsubscribe.route] sendEffect(e, e.eventStream, eventUnsub{pid: pid}, nil, entry(loglen), loglen)
+
+// ---------------------------------------------------------------------------
+// The event stream actor (C12 C09). Its subscriber set is a map keyed by *PID
+// (pointer identity). The fan-out loop is verified with two ghost arrays:
+// at[q] = log position of the forward to subscriber q, src[k] = subscriber
+// whose forward is at log position k; together they are a bijection between
+// the non-nil subscribers and the log entries the loop appends.
+
+//@ func (EventLogger).Log()
+//@   abstract
+//@   pure
+
+//@ pred forwardedAt(e, pid, msg, sender, k) := (e.address == pid.Address ==> sentLocal(e, pid, msg, sender, k)) &&
+//@      (e.address != pid.Address && isnil(e.remote) ==> log[k] == Broadcast(e, EngineRemoteMissingEvent{Target: pid, Sender: sender, Message: msg})) &&
+//@      (e.address != pid.Address && !isnil(e.remote) ==> log[k] == RemoteSend(e.remote, pid, msg, sender))
+
+//@ func (*eventStream).Receive(c)
+//@   props C12 C09
+//@   requires e != nil && e.subs != nil && c != nil && engInv(c.engine)
+//@   nopanic[C12.stream.nopanic]
+//@   modifies mapof(e.subs), log, loglen
+//@   ghost at entry: lb = loglen; at = arbitrary("(Array Ref Int)"); src = arbitrary("(Array Int Ref)")
+//@   ghost at call Forward#1: at = ite(sub != nil, store(at, sub, loglen - 1), at); src = ite(sub != nil, store(src, loglen - 1, sub), src)
+//@   ghost at mapupdate#1: assert[C12.sub.added] key == c.message.(eventSub).pid && value == true
+//@   ensures[C12.sub.set] istype(c.message, eventSub) ==> loglen == entry(loglen) && has(e.subs, c.message.(eventSub).pid) && forallS("Ref as *PID", q, q != c.message.(eventSub).pid ==> has(e.subs, q) == old(has(e.subs, q)))
+//@   ensures[C12.unsub.set] istype(c.message, eventUnsub) ==> loglen == entry(loglen) && !has(e.subs, c.message.(eventUnsub).pid) && forallS("Ref as *PID", q, q != c.message.(eventUnsub).pid ==> has(e.subs, q) == old(has(e.subs, q)))
+//@   ensures[C12.unsub.by-value@equal-pid-in-distinct-object] istype(c.message, eventUnsub) && c.message.(eventUnsub).pid != nil ==> forallS("Ref as *PID", q, has(e.subs, q) && q != nil ==> !(pidAddr(q) == pidAddr(c.message.(eventUnsub).pid) && pidID(q) == pidID(c.message.(eventUnsub).pid)))
+//@   ensures[C12.forward.subs-unchanged] !istype(c.message, eventSub) && !istype(c.message, eventUnsub) ==> forallS("Ref as *PID", q, has(e.subs, q) == old(has(e.subs, q)))
+//@   ghost at return#1: assert[C12.forward.each-subscriber-once] !istype(c.message, eventSub) && !istype(c.message, eventUnsub) ==> forallS("Ref as *PID", q, has(e.subs, q) && q != nil ==> lb <= at[q] && at[q] < loglen && src[at[q]] == q && forwardedAt(c.engine, q, c.message, c.pid, at[q]))
+//@   ghost at return#1: assert[C09.finite@subscriber-no-longer-registered] istype(c.message, DeadLetterEvent) ==> forall(k, lb <= k && k < loglen ==> !(isev(log[k], Broadcast) && istype(log[k].Broadcast_msg, DeadLetterEvent)))
+//@   ghost at return#1: assert[C12.forward.nothing-else] !istype(c.message, eventSub) && !istype(c.message, eventUnsub) ==> lb == entry(loglen) && logPrefix(lb) && forall(k, lb <= k && k < loglen ==> has(e.subs, src[k]) && src[k] != nil && at[src[k]] == k)
+//@   loop 1
+//@     invariant[C12.forward.inv.base] lb == entry(loglen) && loglen >= lb && logPrefix(lb)
+//@     invariant[C12.forward.inv.at] forallS("Ref as *PID", q, visited1[q] && has(e.subs, q) && q != nil ==> lb <= at[q] && at[q] < loglen && src[at[q]] == q && forwardedAt(c.engine, q, c.message, c.pid, at[q]))
+//@     invariant[C12.forward.inv.src] forall(k, lb <= k && k < loglen ==> visited1[src[k]] && has(e.subs, src[k]) && src[k] != nil && at[src[k]] == k)
+
+
+// ---------------------------------------------------------------------------
+// Request / response (C11). A Response is a one-shot Processer: Send puts the
+// reply into its channel (ChanSend event), Result takes one value out of it
+// or gives up at the timeout, and unregisters the response PID on every path.
+
+//@ event ChanSend(ch Ref, v Iface)
+
+//@ func NewResponse(e, timeout)
+//@   trusted
+//@   modifies
+//@   ensures fresh(result) && result != nil && result.engine == e && result.pid != nil && result.pid.Address == e.address && result.result != nil
+
+//@ func (*Response).PID()
+//@   props C11
+//@   requires r != nil
+//@   pure
+//@   ensures result == r.pid
+
+//@ func (*Response).Send(a, msg, b)
+//@   props C11
+//@   requires r != nil
+//@   modifies
+//@   ghost at chansend: emit ChanSend(ch, sent)
+//@   emits ChanSend(r.result, msg)
+
+//@ func (*Response).Result()
+//@   props C11 C10
+//@   requires r != nil && engInv(r.engine) && r.pid != nil
+//@   nopanic[C11.result.nopanic]
+//@   modifies mapof(r.engine.Registry.lookup), log, loglen
+//@   ghost at select#1: sel = idx; got = recv0; from = chan0
+//@   ghost at return#2: assert[C11.result.value-from-own-channel] sel == 0 && from == r.result && result0 == got && isnil(result1)
+//@   ghost at return#3: assert[C11.result.timeout-returns-no-value] sel == 1 && isnil(result0)
+//@   ghost at return#2: assert[C11.result.always-unregisters] loglen == entry(loglen) + 2 && isev(log[entry(loglen)], Cancel) && log[entry(loglen) + 1] == RegRemove(r.engine.Registry, r.pid.ID)
+//@   ghost at return#3: assert[C11.result.always-unregisters] loglen == entry(loglen) + 2 && isev(log[entry(loglen)], Cancel) && log[entry(loglen) + 1] == RegRemove(r.engine.Registry, r.pid.ID)
+//@   ensures[C11.result.log-prefix] logPrefix(entry(loglen))
+
+//@ func (*Response).Result$1()
+//@   inline
+
+//@ func (*Engine).Request(pid, msg, timeout)
+//@   props C11
+//@   requires engInv(e)
+//@   modifies heap except private, log, loglen
+//@   ghost at call add#1 before: assert[C11.request.registers-response] arg0 == e.Registry && loglen == entry(loglen)
+//@   ghost at call SendWithSender#1 before: assert[C11.request.sends-after-registering-with-response-as-sender] arg1 == pid && arg2 == msg && arg3 == resp.pid && loglen > entry(loglen)
+//@   ensures[C11.request.response] result != nil && fresh(result) && result.engine == e
